@@ -46,8 +46,9 @@ array a Samples was built from) is remembered with a value copy taken before the
 adjoint, gradient, get_matrix; ndarray / CUQIarray / Samples / matrix) with a value copy taken when it was returned -
 the moment it was compared with the reference.  The order of the batteries is the history: point p1 in each
 representation, p2, p3, ..., sample collections, [adjoint battery,] gradients, get_matrix + forward + gradients + second
-get_matrix, model(distribution) + its applications.  After the collections of each battery, after the gradients, after
-get_matrix and at the end of the cell every kept object must still read what it read then (`earlier-output-altered`,
+get_matrix, model(distribution) + its applications.  After the collections of each battery, after the gradients and after
+get_matrix the objects kept since the previous audit, at the end of the cell all kept objects must still read what they
+read then (`earlier-output-altered`,
 `input-altered`; facet in the signature: operation + kind of object kept).  Aliasing as such is not judged (the
 statement does not forbid it): only objects whose content CHANGES through later use of the model are reported.
 The PDE models come with grids unspecified and (`*_grid` kinds) with explicit, equal solution/observation grids, crossed
@@ -71,9 +72,10 @@ RULE = ("cells = model kind (incl. the derived models LinearModel.T / .T.T) x do
         "geometry}; linear models: the same battery through adjoint; every (direction, wrt) representation pair of "
         "gradient (16 + 11 pairs of the geometry-carried/dtype facets) with all basis directions; history facet: every "
         "input and output object of every call above (forward / adjoint / gradient / get_matrix, each representation) is "
-        "kept with a value copy taken at call resp. return time and audited after the sample collections of each battery, "
-        "after the gradients, after get_matrix + forward + gradient + a second get_matrix, and at the end of the cell "
-        "(after model(distribution) and its applications): kept outputs and the caller's inputs read what they read then; "
+        "kept with a value copy taken at call resp. return time and audited after the sample collections of its battery / "
+        "after the gradients / after get_matrix + forward + gradient + a second get_matrix (objects kept since the previous "
+        "audit), and all of them once more at the end of the cell (after model(distribution) and its applications): kept "
+        "outputs and the caller's inputs read what they read then; "
         "PDE models with unspecified and with explicit coinciding solution/observation grids; a cell is non-trivial "
         "when at least one forward value was compared with the composed reference")
 BOUND = {
@@ -97,7 +99,7 @@ BOUND = {
              "grid_sol/grid_obs {Poisson, Heat forward Euler, Heat backward Euler with the final time given as time_obs "
              "array} x domain {plain 1-D, Image2D-C, StepExpansion with gradient} x the 7 range kinds with a 1-D function "
              "space (+ equal copy); history facet: all objects of a cell (about 150-250 forward/adjoint outputs, every "
-             "computed gradient, 2 matrices, all inputs) audited at 3-5 stages",
+             "computed gradient, 2 matrices, all inputs) audited twice (after their own battery, at the end of the cell)",
     "thorough": "same product with 2 sizes per domain and per range kind (4 combinations), points = basis + origin + "
                 "integer generic + 3 dyadic generic, every Samples variant with 1..3 columns, gradient linearised at "
                 "every point (extra pairs at the last generic point, integer pair at every integer-valued point); MappedGeometry "
@@ -307,13 +309,13 @@ class _Ledger:
     """History facet 'outputs are values, inputs stay the caller's': every object handed to the model (input) and every
     object handed back by it (output of forward / adjoint / gradient / get_matrix, in every representation) is KEPT
     together with a value copy taken at call time resp. return time.  `audit` - run after the sample collections of a
-    battery, after the gradients, after get_matrix and at the end of the cell, i.e. after the model was applied to
-    other points, in other representations and to sample collections - demands that every kept object still reads
-    what it read then.  (The copy of an output was compared with the independent reference when it was returned.)
+    battery, after the gradients, after get_matrix (each time on the objects kept since the previous audit) and at the end
+    of the cell (on all of them), i.e. after the model was applied to other points, in other representations and to
+    sample collections - demands that every kept object still reads what it read then.  (The copy of an output was compared with the independent reference when it was returned.)
     One raw failure per (operation, kind of object) and cell."""
 
     def __init__(self):
-        self.outs, self.ins, self.reported = [], [], set()
+        self.outs, self.ins, self.reported, self.done = [], [], set(), (0, 0)
 
     def keep_input(self, op, rep, pname, obj):
         snap = _snapshot(obj)
@@ -345,9 +347,13 @@ class _Ledger:
                          "%s after it" % (op, pname, rep, snap[0], _snap_values(snap),
                                           _flat_or_none(obj)), point=pname, given_as=rep)
 
-    def audit(self, res, raw, stage):
+    def audit(self, res, raw, stage, everything=False):
+        """Objects kept since the previous audit (they have seen the later calls of their own battery); at the end of the
+        cell `everything`: each kept object is audited right after its battery and once more after all the others."""
         res.state("history:" + stage)
-        for op, rep, pname, obj, snap in self.outs:
+        o0, i0 = (0, 0) if everything else self.done
+        self.done = (len(self.outs), len(self.ins))
+        for op, rep, pname, obj, snap in self.outs[o0:]:
             res.evaluations += 1
             now = _snapshot(obj)
             if not now == snap:
@@ -357,7 +363,7 @@ class _Ledger:
                              % (snap[0], op, pname, rep, _snap_values(snap),
                                 _snap_values(now), stage),
                              point=pname, given_as=rep, stage=stage)
-        for op, rep, pname, obj, snap in self.ins:
+        for op, rep, pname, obj, snap in self.ins[i0:]:
             res.evaluations += 1
             if not _snapshot(obj) == snap:
                 self._report(raw, op + "-input", "input-altered", snap[0],
@@ -759,7 +765,7 @@ def _explore(res, cell):
 
     # ---- 5. history: at the end of the cell every object the caller kept (outputs of forward / adjoint / gradient /
     #         get_matrix in every representation, the caller's own input objects) reads what it read at return time
-    raw.ledger.audit(res, raw, "at the end of the cell")
+    raw.ledger.audit(res, raw, "at the end of the cell", everything=True)
 
     raw.compared = compared[0]
     raw.sample = {"model": name, "domain": repr(dg), "range": repr(rg), "point": pts[-1][1],
@@ -849,7 +855,7 @@ def _check_gradient(res, raw, cell, model, gd, gr, dg, rg, pts, ref):
                     res.outcomes.add("grad:%s:%s:refused:%s" % (wrep, drep, type(e).__name__))
                     for o, sn in snaps:
                         ledger.input_after_call(res, raw, "gradient", grep_, gname, o, sn)
-                    ledger.forget_inputs(len(snaps))     # a refused call: judged right after it, not kept for later
+                    ledger.forget_inputs(sum(1 for _, sn in snaps if sn is not None))     # a refused call: judged right after it, not kept for later
                     continue
                 for o, sn in snaps:
                     ledger.input_after_call(res, raw, "gradient", grep_, gname, o, sn)
